@@ -161,11 +161,20 @@ impl Selector {
         // free the unused event_data
         self.free_unused_event_data(id);
 
-        // deal with the timer list
+        // deal with the timer list. a time-out handler resumes its coroutine right here,
+        // and what that coroutine makes ready (itself by a yield, others by unpark or
+        // spawn) lands in the local queue: run it before going to sleep in the next
+        // select, then look at the timers again, the tasks can have armed new ones
         #[cfg(feature = "io_timeout")]
-        let next_expire = single_selector
-            .timer_list
-            .schedule_timer(now(), &timeout_handler);
+        let next_expire = loop {
+            let next_expire = single_selector
+                .timer_list
+                .schedule_timer(now(), &timeout_handler);
+            if !scheduler.has_queued_tasks(id) {
+                break next_expire;
+            }
+            scheduler.run_queued_tasks(id);
+        };
         #[cfg(not(feature = "io_timeout"))]
         let next_expire = None;
         Ok(next_expire)
